@@ -210,7 +210,11 @@ TEXT = {
                 "rules) next to the model of verification. Proved for every verifier list, signature, envelope and approver set: the "
                 "answer 'signature needed' arises only when some rule with threshold t has exactly t-1 counted principals of its own "
                 "(C19_need_means_one_short); 'no signature needed' only when a verifier accepted outright or its own counted principals "
-                "reach its threshold (C19_no_need_means_met). The agreement statement C19_statement is checked on the REAL code: "
+                "reach its threshold (C19_no_need_means_met); an answer 'possible, no signature needed' is literally the answer the "
+                "verification-mode loop gives on the same inputs (C19_no_need_is_verification), an outright refusal in mergeability mode "
+                "is a refusal in verification mode and verification-mode acceptance implies 'possible' (C19_refusal_is_refusal, "
+                "C19_verification_implies_possible): mergeability mode only ever relaxes. The agreement statement C19_statement (recorders "
+                "with their own signature, whole histories) is checked on the REAL code: "
                 "prediction, then the merge recorded by each candidate recorder and verified.",
         "note": TB + "Only fast-forward merges. Open findings on this tree: F27 (threshold-1 rules are reported 'not possible' without "
                 "approvals), F28 (an authorization envelope without signatures makes the prediction fail hard). F1 (global rules) is fixed.",
